@@ -135,7 +135,7 @@ def _gap_events(args):
         try:
             tx = mk_tx(blocks, st, None, None)
         except Exception as ex:
-            ev.append(["txgap", [blocks, st], ["x", type(ex).__name__], ["x", type(ex).__name__]])
+            ev.append(["txgap", [blocks, st], ["x", E.exc_name(ex)], ["x", E.exc_name(ex)]])
             continue
         ev.append(["txgap", [blocks, st], E.loc_outcome(lambda: tx.chromosome_intron_location),
                    E.loc_outcome(lambda: tx.chromosome_span)])
